@@ -32,13 +32,15 @@ package s2
 //@   modifies s.nextID, s.status, s.shapes{*}
 //@   ensures [SI] vcSI(s)
 //@   ensures [stale] s.status == stale && s.nextID == old(s.nextID)+1 && result == old(s.nextID)
-//@   ensures [pending] s.pendingAdditionsPos == old(s.pendingAdditionsPos)
+//@   ensures [pending] s.pendingAdditionsPos == old(s.pendingAdditionsPos) && !vcHeld(&s.mu)
+//@   ensures [stored] vcMapHas(s.shapes, old(s.nextID)) && s.shapes[old(s.nextID)] == shape
 
 //@ func (s *ShapeIndex) Reset()
 //@   requires s != nil && !vcHeld(&s.mu)
 //@   modifies *s
 //@   ensures [SI] vcSI(s)
-//@   ensures [empty] s.nextID == 0 && len(s.cells) == 0 && s.status == fresh
+//@   ensures [empty] s.nextID == 0 && len(s.cells) == 0 && s.status == fresh && s.pendingAdditionsPos == 0
+//@   ensures [unlocked] !vcHeld(&s.mu)
 
 //@ func (s *ShapeIndex) isFirstUpdate() bool
 //@   requires s != nil
@@ -50,20 +52,22 @@ package s2
 
 // The update path runs with the index lock held and the status not yet fresh.
 //@ spec func vcUpdating(s *ShapeIndex) bool = vcSIcore(s) && vcHeld(&s.mu) && s.status != fresh
+// ... and, since the incremental path is not ported, always as the first update of an empty cell list
+//@ spec func vcFirstUpdate(s *ShapeIndex) bool = vcUpdating(s) && s.pendingAdditionsPos == 0
 
 //@ func (s *ShapeIndex) removeShapeInternal(removed *removedShape, allEdges [][]faceEdge, t *tracker)
 //@   assumed "edge clipping (float) and interior pointers: body outside the subset; touches only allEdges and the tracker"
-//@   requires vcUpdating(s)
+//@   requires vcFirstUpdate(s)
 //@   modifies allEdges[*], *t
 
 //@ func (s *ShapeIndex) addShapeInternal(shapeID int32, allEdges [][]faceEdge, t *tracker)
 //@   assumed "edge clipping (float) and interior pointers: body outside the subset; touches only allEdges and the tracker"
-//@   requires vcUpdating(s)
+//@   requires vcFirstUpdate(s)
 //@   modifies allEdges[*], *t
 
 //@ func (s *ShapeIndex) updateFaceEdges(face int, faceEdges []faceEdge, t *tracker)
 //@   assumed "recursive clipping with interior pointers: body outside the subset; it calls shrinkToFit, skipCellRange and updateEdges with the lock still held and only changes the cell list and cell map"
-//@   requires vcUpdating(s) && 0 <= face && face < 6
+//@   requires vcFirstUpdate(s) && 0 <= face && face < 6
 //@   modifies s.cells, s.cellMap, *t
 //@   ensures s.cellMap != nil
 
@@ -76,9 +80,9 @@ package s2
 //@   modifies s.cells, s.cellMap, s.pendingRemovals, s.pendingAdditionsPos
 //@   ensures [applied] vcSIcore(s) && s.pendingAdditionsPos == s.nextID && len(s.pendingRemovals) == 0
 //@   ensures [held] vcHeld(&s.mu)
-//@   loop 1 (rangeindex int): invariant vcUpdating(s)
-//@   loop 2 (id int32): invariant vcUpdating(s)
-//@   loop 3 (face int): invariant vcUpdating(s) && 0 <= face && face <= 6
+//@   loop 1 (rangeindex int): invariant vcFirstUpdate(s)
+//@   loop 2 (id int32): invariant vcFirstUpdate(s)
+//@   loop 3 (face int): invariant vcFirstUpdate(s) && 0 <= face && face <= 6
 
 //@ func (s *ShapeIndex) maybeApplyUpdates()
 //@   requires vcSI(s) && !vcHeld(&s.mu)
@@ -120,9 +124,9 @@ package s2
 //@   requires s != nil
 //@   modifies *s
 
-// shrinkToFit is reached only from the update path (lock held, status not fresh).
+// shrinkToFit is reached only from the update path (lock held, status not fresh, first update).
 //@ func (s *ShapeIndex) shrinkToFit(pcell *PaddedCell, bound r2.Rect) CellID
-//@   requires vcUpdating(s) && pcell != nil
+//@   requires vcFirstUpdate(s) && pcell != nil
 //@   modifies s.cells, s.cellMap, s.pendingRemovals, s.pendingAdditionsPos, s.status
 //@   ensures [held] vcHeld(&s.mu)
 
@@ -192,3 +196,36 @@ package s2
 //@   modifies p.numEdges, p.cumulativeEdges, p.index
 //@   ensures [index] p.index != nil
 //@   loop 1 (rangeindex int): invariant p != nil
+
+// ---------------------------------------------------------------- the unported incremental path
+
+// tracker.lowerBound is panic("not implemented"); it and its two callers are reachable only through
+// absorbIndexCell, i.e. only when updateEdges is called with disjointFromIndex == false. After the fix every
+// update is a first update (vcFirstUpdate), and updateFaceEdges passes disjointFromIndex = isFirstUpdate().
+// The bodies of updateFaceEdges / updateEdges are outside the verified subset, so this last step is an
+// assumption listed in the evidence, not a proof.
+//@ func (t *tracker) lowerBound(shapeID int32) int32
+//@   nocanary
+//@   requires false
+
+//@ func (t *tracker) saveAndClearStateBefore(limitShapeID int32)
+//@   nocanary
+//@   requires false
+
+//@ func (t *tracker) restoreStateBefore(limitShapeID int32)
+//@   nocanary
+//@   requires false
+
+// ---------------------------------------------------------------- Loop.Invert keeps the loop's index consistent
+
+// A loop's index exists, satisfies SI, and holds exactly the loop itself as shape 0.
+//@ spec func vcLoopIndexed(l *Loop) bool = l != nil && len(l.vertices) >= 1 && l.index != nil && vcSI(l.index) && !vcHeld(&l.index.mu) &&
+//@    l.index.nextID == 1 && vcMapHas(l.index.shapes, 0) && l.index.shapes[0] == Shape(l)
+
+//@ func (l *Loop) Invert()
+//@   requires vcLoopIndexed(l)
+//@   noframe
+//@   ensures [indexed] vcLoopIndexed(l)
+//@   ensures [pending] l.index.pendingAdditionsPos == 0 && l.index.status == stale
+//@   ensures [flipped] l.originInside == !old(l.originInside)
+//@   loop 1 (i int): invariant l != nil && len(l.vertices) >= 1 && l.index != nil && vcSI(l.index) && !vcHeld(&l.index.mu) && l.index.nextID == 0 && l.index.status == fresh && l.originInside == old(l.originInside) && -1 <= i && i < len(l.vertices)
